@@ -57,9 +57,13 @@ def _corpus_inputs(ctx):
     return as_is, muts
 
 
-def _findings_inputs():
+def _findings_inputs(quick):
+    """The reproducers kept in pools/findings (fixed defects must now compile; open ones are known findings).
+    Reproducers of non-termination (*_hang.sw) cost a full time-out each and are left to the thorough tier."""
     out = []
     for i, f in enumerate(sorted(glob.glob(os.path.join(FINDINGS, "*.sw")))):
+        if quick and f.endswith("_hang.sw"):
+            continue
         out.append({"id": "fnd%02d" % i, "key": "finding:%s" % os.path.basename(f), "files": {"src/main.sw": open(f).read()},
                     "class": "finding_reproducer"})
     return out
@@ -130,7 +134,7 @@ def run(ctx):
     nb, ndouble = (2, 30) if ctx.quick else (8, 1000)
     ast, tlc1, tlc2, bases, kinds_spec = _ast_inputs(ctx, nb, ndouble, 17)
     as_is, text = _corpus_inputs(ctx)
-    fnd = _findings_inputs()
+    fnd = _findings_inputs(ctx.quick)
     pool_sizes = {"ast_single": len([a for a in ast if a["class"] == "ast_single_mutant"]),
                   "ast_double": len([a for a in ast if a["class"] == "ast_double_mutant"]),
                   "corpus_as_is": len(as_is), "corpus_text_mutants": len(text), "finding_reproducers": len(fnd)}
@@ -158,12 +162,14 @@ def run(ctx):
             o = cx.classify(r["built"], r["crashed"])
             results[(a["id"], profile, engine)] = (o, cx.detail(r["built"], r["crashed"]))
 
-    dbg = cx.run_fast(ctx, inputs, "debug", procs=4)
-    take(dbg, inputs, "debug", "vh-crash")
-    rel_inputs = slice_for_seed(inputs, ctx.seed + 1, max(16, len(inputs) // 12)) + fnd
-    rel_inputs = list({a["id"]: a for a in rel_inputs}.values())
-    rel = cx.run_fast(ctx, rel_inputs, "release", procs=4)
-    take(rel, rel_inputs, "release", "vh-crash")
+    normal = [a for a in inputs if a["class"] != "finding_reproducer"]
+    take(cx.run_fast(ctx, normal, "debug", procs=4), normal, "debug", "vh-crash")
+    rel_inputs = slice_for_seed(normal, ctx.seed + 1, max(16, len(normal) // 12))
+    take(cx.run_fast(ctx, rel_inputs, "release", procs=4), rel_inputs, "release", "vh-crash")
+    # the kept reproducers, both profiles, with a short time-out (the *_hang.sw ones are known not to terminate)
+    for profile in ("debug", "release"):
+        take(cx.run_fast(ctx, fnd, profile, procs=2, pkg_timeout=60, chunk=50), fnd, profile, "vh-crash")
+    rel_inputs = rel_inputs + fnd
     # the complete forc path (several packages per fresh vh-exec process), both profiles, on a slice
     full_inputs = slice_for_seed([a for a in inputs if a["class"] != "finding_reproducer"], ctx.seed + 2, 4 if ctx.quick else 40)
     unsupported = [a for a in inputs if results[(a["id"], "debug", "vh-crash")][0] == "unsupported"]
@@ -182,8 +188,10 @@ def run(ctx):
             seen.add((pid, profile))
             jobs.append((ids[pid], profile))
     confirmed = {}
-    for (a, profile), r in zip(jobs, cx.run_alone_many(ctx, jobs, procs=4, pkg_timeout=600)):
-        confirmed[(a["id"], profile)] = (cx.classify(r["built"], r["crashed"]), cx.detail(r["built"], r["crashed"]))
+    for pool_, tmo in (([j for j in jobs if j[0]["class"] != "finding_reproducer"], 600),
+                       ([j for j in jobs if j[0]["class"] == "finding_reproducer"], 150)):
+        for (a, profile), r in zip(pool_, cx.run_alone_many(ctx, pool_, procs=4, pkg_timeout=tmo)):
+            confirmed[(a["id"], profile)] = (cx.classify(r["built"], r["crashed"]), cx.detail(r["built"], r["crashed"]))
     not_reproduced = []
     final = {}
     for k, (o, d) in sorted(results.items()):
@@ -212,7 +220,7 @@ def run(ctx):
                 validated += len(chunk)
                 break
             k = tr.first_unmatched()
-            m = re.search(r'<<"UNCONSUMABLE", "(\[[0-9,]*\])">>', tr.out)
+            m = re.search(r'<<\s*"UNCONSUMABLE",\s*"(\[[0-9,]*\])"\s*>>', tr.out)
             if tr.violated != "postcondition" or k is None or not m or attempt == 2:
                 raise ToolError("trace validation failed unexpectedly: %s" % tr.violated)
             bad = sorted(json.loads(m.group(1)))
